@@ -46,7 +46,7 @@ def gen_cases(rng, tier: str) -> list[dict]:
 
 
 def impl_query(c: dict, e, p):
-    x = c["x"]
+    x = wire.fresh_str(c["x"])        # an equal name, not the str object held by the Variable leaves
     via = c["via"]
     if via == "name":
         return call(lambda: sm.Partial(e, x).at(p)), f"fwd {x} {c['e']} {c['p']}"
